@@ -167,3 +167,15 @@ def normalized(func):
         node._parent = getattr(func.node, '_parent', None)
     _cache[key] = (func.node, nf)
     return nf
+
+
+def normalize_in_place(func):
+    """Unroll the table loops of func.node and keep the result as func.node (same Func object)."""
+    func._normalized = True
+    node, n = unroll_table_loops(func.node, func.module)
+    if n:
+        node._parent = getattr(func.node, '_parent', None)
+        func.node = node
+        for x in ast.walk(node):
+            x._func = func
+    return n
